@@ -223,7 +223,7 @@ def random_general_spec(rng, size="small", pseudo=True, funcs=None, with_measure
     spec = {
         "tvars": [{"name": n, "desc": _desc(rng), "log": bool(rng.random() < log_prob)} for n in tv],
         "mvars": [{"name": n, "desc": _desc(rng), "log": bool(rng.random() < log_prob)} for n in mv],
-        "exog": [{"name": n, "desc": _desc(rng), "log": False} for n in xs],
+        "exog": [{"name": n, "desc": _desc(rng), "log": bool(rng.random() < 0.35)} for n in xs],
         "tshocks": [{"name": n, "desc": _desc(rng)} for n in ts],
         "mshocks": [{"name": n, "desc": _desc(rng)} for n in ms],
         "params": [{"name": n, "desc": _desc(rng), "value": float(np.round(rng.uniform(0.3, 1.4), 3))} for n in ps],
@@ -603,11 +603,21 @@ def render_source(spec, rng=None, level=1):
                 context[flag] = truth
                 decoy = render_eq({"lhs": eq["lhs"], "rhs": E.bin_("+", eq["rhs"], E.num(1.0)), "steady": None}, allow_subs=False) + ";"
                 cond = pick([flag, f"{flag} == True", f"not (not {flag})"]) if truth else pick([f"not {flag}", f"{flag} == False"])
-                if coin():
+                form = int(rng.integers(0, 4))
+                if form == 0:
                     line = f"!if {cond} !then\n        {line}\n    !else\n        {decoy}\n    !end"
-                else:
+                elif form == 1:
                     neg_cond = f"not ({cond})"
                     line = f"!if {neg_cond} !then\n        {decoy}\n    !else\n        {line}\n    !end"
+                elif form == 2:
+                    # no !else branch: the equation is kept because the condition holds
+                    line = f"!if {cond} !then\n        {line}\n    !end"
+                    feats.add("if-without-else")
+                else:
+                    # no !else branch: a decoy is dropped because the condition fails; the equation follows unconditionally
+                    neg_cond = f"not ({cond})"
+                    line = f"!if {neg_cond} !then\n        {decoy}\n    !end\n    {line}"
+                    feats.add("if-without-else")
                 feats.add("if-then-else")
             if level > 0 and coin(0.2):
                 line += "  " + pick(_COMMENTS)
